@@ -22,23 +22,25 @@ inductive Tok where
   | lp | rp | atom (s : String)
   deriving Repr, BEq
 
-/-- Tokenizer over a character list (fuel = length, structural on the list). -/
-def tokenize : List Char → List Char → Bool → List Tok → List Tok
-  -- args: input, current atom (reversed), inside-quote flag, acc (reversed)
+/-- Tokenizer over a character list (structural on the list).  An atom starting with `'` or
+`"` extends to the matching closing quote (RisingLight prints string constants as `'…'`; egg
+quotes atoms that contain parentheses, e.g. `"$0.1(1)"`, with `"`). -/
+def tokenize : List Char → List Char → Option Char → List Tok → List Tok
+  -- args: input, current atom (reversed), open quote character, acc (reversed)
   | [], cur, _, acc =>
       (if cur.isEmpty then acc else Tok.atom (String.ofList cur.reverse) :: acc).reverse
-  | c :: cs, cur, true, acc =>
-      if c == '\'' then tokenize cs [] false (Tok.atom (String.ofList (c :: cur).reverse) :: acc)
-      else tokenize cs (c :: cur) true acc
-  | c :: cs, cur, false, acc =>
+  | c :: cs, cur, some q, acc =>
+      if c == q then tokenize cs [] none (Tok.atom (String.ofList (c :: cur).reverse) :: acc)
+      else tokenize cs (c :: cur) (some q) acc
+  | c :: cs, cur, none, acc =>
       if c == '(' then
-        tokenize cs [] false (Tok.lp :: (if cur.isEmpty then acc else Tok.atom (String.ofList cur.reverse) :: acc))
+        tokenize cs [] none (Tok.lp :: (if cur.isEmpty then acc else Tok.atom (String.ofList cur.reverse) :: acc))
       else if c == ')' then
-        tokenize cs [] false (Tok.rp :: (if cur.isEmpty then acc else Tok.atom (String.ofList cur.reverse) :: acc))
+        tokenize cs [] none (Tok.rp :: (if cur.isEmpty then acc else Tok.atom (String.ofList cur.reverse) :: acc))
       else if isWs c then
-        tokenize cs [] false (if cur.isEmpty then acc else Tok.atom (String.ofList cur.reverse) :: acc)
-      else if c == '\'' && cur.isEmpty then tokenize cs [c] true acc
-      else tokenize cs (c :: cur) false acc
+        tokenize cs [] none (if cur.isEmpty then acc else Tok.atom (String.ofList cur.reverse) :: acc)
+      else if (c == '\'' || c == '"') && cur.isEmpty then tokenize cs [c] (some c) acc
+      else tokenize cs (c :: cur) none acc
 
 /-- Parser with an explicit stack of open lists (reversed element lists). -/
 def parseToks : List Tok → List (List Sexp) → Option Sexp → Option Sexp
@@ -59,7 +61,7 @@ def parseToks : List Tok → List (List Sexp) → Option Sexp → Option Sexp
   | Tok.atom _ :: _, _, some _ => none
 
 def parse (s : String) : Option Sexp :=
-  parseToks (tokenize s.toList [] false []) [] none
+  parseToks (tokenize s.toList [] none []) [] none
 
 mutual
   def toStr : Sexp → String
